@@ -212,6 +212,57 @@ def run_pairs(desc, ctx):
                     ctx.count("would_change")
                 ctx.case(sig, changed, {"metric": metric, "field": field, "encoding": enc, "mode": mode, "marked_cases": len(K),
                                          "input_format": vin["fmt"]})
+        # scores averaged over several thresholds (-r a,b on an axis other than threshold): a slice where ONE of the thresholds
+        # has no valid case has no average either - the thresholds that do have cases there are not averaged with a stand-in
+        for rep in range(2):
+            use = sorted(rng.sample(thresholds, rng.randint(2, 3)))
+            j = thresholds.index(rng.choice(use))
+            metric = rng.choice(["bs", "bs", "bsrel", "bsres", "bss", "threshold"])
+            victim = rng.randrange(F)
+            axis = rng.choice(["leadtime", "location", "time"])
+            dimi = {"time": 0, "leadtime": 1, "location": 2}[axis]
+            v0 = rng.choice([times, leads, [s[0] for s in locs]][dimi])
+            A = [dict(i, style={}) for i in ds["inputs"]]
+            a_in = dict(A[victim])
+            a_in["cells"] = {k: dict(c) for k, c in a_in["cells"].items()}
+            for (t, l, s) in cases:
+                if (t, l, s)[dimi] == v0:
+                    c = a_in["cells"][gen.ck(t, l, s)]
+                    c["p"] = [None if jj == j else x for jj, x in enumerate(c["p"])]
+            A[victim] = a_in
+            dm = os.path.join(base, "multi%d" % rep)
+            os.makedirs(dm)
+            pa = [gen.write_input(w, dm, random.Random(rng.random())) for w in A]
+            cmd = ["-m", metric, "-r", ",".join(gen.fnum(t) for t in use), "-x", axis, "-type", "csv"]
+            oa = runner.run_cli(pa + cmd)
+            o0 = runner.run_cli(orig_paths + cmd)
+            ctx.count("multi_threshold_pairs")
+            case = {"ds": ds, "metric": metric, "thresholds": use, "blanked_threshold": thresholds[j], "victim": victim, "axis": axis, "slice": v0}
+            if oa.status == "crash":
+                ctx.violation("crash-on-missing|%s@%s" % (oa.exc_type, oa.where), "verif <A> %s\n%s" % (" ".join(cmd), oa.tb), case)
+                continue
+            if oa.status != "ok" or o0.status != "ok":
+                continue
+            ha, rowsa = runner.parse_csv(oa.stdout)
+            h0, rows0 = runner.parse_csv(o0.stdout)
+            labels = refmodel.slice_labels(ds, axis)
+            if len(rowsa) != len(labels) or len(rows0) != len(labels):
+                continue
+            nd = len(ha) - F
+            for i, lab in enumerate(labels):
+                hit = lab == v0
+                vals = rowsa[i][nd:]
+                ctx.count("multi_threshold_rows")
+                if hit:
+                    if not all(v.lower() == "nan" for v in vals):
+                        ctx.violation("number-from-no-valid-case|threshold-average",
+                                      "%s: the p%s column of input %d is missing throughout %s %s, so threshold %s has no valid case there, "
+                                      "but the average over thresholds %s is reported as %s"
+                                      % (" ".join(cmd), gen.fnum(thresholds[j]), victim, axis, v0, gen.fnum(thresholds[j]), use, vals), case)
+                elif not all(same_number(x, y) for x, y in zip(vals, rows0[i][nd:])):
+                    ctx.violation("untouched-slice-changed|threshold-average", "%s row %d: %s, without the missing column %s"
+                                  % (" ".join(cmd), i, vals, rows0[i][nd:]), case)
+            ctx.case("multi-threshold|%s|%s|%d" % (metric, axis, len(use)), True, {"argv": cmd})
         # climatology: zeros under -C, missing under -c
         for ctype in ("divide", "subtract"):
             # (negative values too: x / 0 is then -inf, which is as missing as +inf)
